@@ -15,7 +15,7 @@ def _child(task, build):
         from vk import smt, cex
         prog, db = build()
         c = db.contracts[q][ci]
-        fr = verify_function(prog, db, q, c)
+        fr = verify_function(prog, db, q, c, case=opts.get('case'))
         om = cex.make_on_model(fr.params, fr.pre_heap)
         res = smt.discharge(fr.obligations, timeout=opts['timeout'], seed=opts['seed'], on_model=om, retry_timeout=opts['retry'],
                             procs=opts['procs'], use_cvc5=opts.get('cvc5', True))
